@@ -442,7 +442,36 @@ Lemma script_inert isl script c :
   In (entry_chunk c) (log (session esc isl script)) -> inert c = true.
 Proof. intros H. now apply nolt_inert, (chunks_have_no_lt isl script). Qed.
 
+(** ... and, wrapped by build_response as [<script>chunk</script>], the element the browser
+    sees ends exactly at the tag that was appended: its text is the chunk, nothing of the chunk
+    is parsed as markup, and no [<!--] switches the tokenizer to the escaped states *)
+Lemma nolt_script_text l : nolt l -> script_text (l ++ k_script_close) = Some l.
+Proof.
+  induction 1 as [|b l Hb _ IH]; [vm_compute; reflexivity|].
+  change ((b :: l) ++ k_script_close) with (b :: (l ++ k_script_close)).
+  cbn [script_text]. rewrite IH. cbn [option_map].
+  unfold k_script_end. cbn [prefix_ci].
+  destruct (N.eqb_spec 60 (lower b)) as [E|E].
+  - symmetry in E. apply lower_60 in E. contradiction.
+  - reflexivity.
+Qed.
+
+Lemma script_element_text isl script c :
+  In (entry_chunk c) (log (session esc isl script)) ->
+  script_text (c ++ k_script_close) = Some c /\ has_comment_open c = false.
+Proof.
+  intros H. pose proof (chunks_have_no_lt isl script c H) as Hn. split.
+  - now apply nolt_script_text.
+  - unfold has_comment_open, k_comment_open. now apply nolt_contains_ci.
+Qed.
+
 End Inert.
+
+(** the statement is about something: a chunk with a hostile payload, and a text that does end
+    the element early when it is not escaped *)
+Example script_element_text_nonvacuous :
+  script_text ([120; 60; 47; 83; 67; 82; 73; 80; 84; 32; 62; 121] ++ k_script_close) = Some [120].
+Proof. vm_compute. reflexivity. Qed.
 
 (** the hypotheses are satisfiable and the conclusion is not vacuous: a hostile error message
     and a hostile payload do end up in chunks of the session's log *)
